@@ -56,10 +56,10 @@ class Env:
 
 
 # =================================================================================== C02
-STYLES = ('acquire', 'with', 'acquire_ctx', 'nonblocking', 'timed')
+STYLES = ('acquire', 'with', 'acquire_ctx', 'nonblocking', 'timed', 'nested')
 
 
-def scen_c02(styles, ctor_timeout, reentrant, nobj, csdur, prio_idx, p1, q1, p2=0, q2=0, rounds=1, t_arg=1):
+def scen_c02(styles, ctor_timeout, reentrant, nobj, csdur, prio_idx, p1, q1, p2=0, q2=0, rounds=1, t_arg=1, objmap=None):
     """len(styles) = threads * rounds (thread-major)."""
     global LAST_INFO, RAW
     nthreads = len(styles) // rounds
@@ -84,7 +84,7 @@ def scen_c02(styles, ctor_timeout, reentrant, nobj, csdur, prio_idx, p1, q1, p2=
         st['occ'] -= 1
 
     async def worker(i):
-        l = locks[i % nobj]
+        l = locks[objmap[i] if objmap else i % nobj]
         for r in range(rounds):
             mode = STYLES[pick(styles[i * rounds + r], len(STYLES))]
             try:
@@ -101,6 +101,25 @@ def scen_c02(styles, ctor_timeout, reentrant, nobj, csdur, prio_idx, p1, q1, p2=
                             await cs(i)
                     except TimeoutError:
                         pass
+                elif mode == 'nested':
+                    # the critical section spans the outer block; a nested re-entry happens in the middle of it
+                    async with vt.cm(l):
+                        st['occ'] += 1
+                        st['entered'] += 1
+                        if st['occ'] > 1:
+                            st['overlap'] = True
+                        if csdur > 0:
+                            await vt.Tok('sleep', W.now + csdur)
+                        async with vt.cm(l):
+                            await vt.sp('nested')
+                        if st['occ'] > 1:
+                            st['overlap'] = True
+                        await vt.sp('cs-tail')
+                        if csdur > 0:
+                            await vt.Tok('sleep', W.now + csdur)
+                        if st['occ'] > 1:
+                            st['overlap'] = True
+                        st['occ'] -= 1
                 elif mode == 'nonblocking':
                     if await vt.call(l.acquire, False):
                         await cs(i)
@@ -533,13 +552,30 @@ def cells(prop, tier):
         combos = [(False, -1, 1), (False, -1, 2), (False, 0, 1), (False, 0, 2), (False, 2, 1), (False, 2, 2), (True, -1, 1), (True, 0, 1)]
         for (re, tmo, nobj) in combos:
             for s0 in range(5):
-                isq = not (tmo == 2 and s0 in (2, 3)) and not (re and s0 in (2, 4))
+                isq = tmo != 2 and not (re and tmo == 0)
                 out.append(Cell(
                     name='c02_2t_re%d_tmo%s_obj%d_%s' % (re, str(tmo).replace('-', 'm'), nobj, STYLES[s0]),
                     sig='s1: int, prio_idx: int, p1: int',
                     pre=['0 <= s1 <= 4 and 0 <= prio_idx <= 1 and 0 <= p1 <= 90'],
                     body='H.scen_c02([%d, s1], %d, %r, %d, 1, prio_idx, p1, 0)' % (s0, tmo, re, nobj),
                     tier=q if isq else 'thorough', timeout=600, family='c02', weight=3))
+        # three contenders, one shared object + one separate object, a failed timed acquisition in the middle
+        for pr in range(6):
+            out.append(Cell(name='c02_3t_ctx_prio%d' % pr, sig='s2: int, p1: int, q1: int',
+                            pre=['0 <= s2 <= 1 and 0 <= p1 <= 130 and 0 <= q1 <= 1'],
+                            body='H.scen_c02([0, 2, s2], -1, False, 2, 2, %d, p1, q1, 0, 0, 1, 1, (0, 0, 1))' % pr,
+                            tier=q, timeout=900, family='c02', weight=4))
+            out.append(Cell(name='c02_3t_ctx_full_prio%d' % pr, sig='s0: int, s2: int, p1: int, q1: int',
+                            pre=['0 <= s0 <= 1 and 0 <= s2 <= 4 and 0 <= p1 <= 130 and 0 <= q1 <= 1'],
+                            body='H.scen_c02([s0, 2, s2], -1, False, 2, 2, %d, p1, q1, 0, 0, 1, 1, (0, 0, 1))' % pr,
+                            tier='thorough', timeout=3000, family='c02', weight=4))
+            # reentrant nesting inside the critical section, two threads on one object + a third on its own object
+            out.append(Cell(name='c02_3t_nested_prio%d' % pr, sig='s2: int, csdur: int, p1: int, q1: int',
+                            pre=['0 <= s2 <= 1 and 1 <= csdur <= 2 and 0 <= p1 <= 170 and 0 <= q1 <= 1'],
+                            body='H.scen_c02([5, 5, s2], -1, True, 2, csdur, %d, p1, q1, 0, 0, 1, 1, (0, 0, 1))' % pr,
+                            tier='thorough', timeout=3000, family='c02', weight=4))
+        out.append(Cell(name='c02_3t_nested_prio0_quick', sig='p1: int, q1: int', pre=['0 <= p1 <= 170 and 0 <= q1 <= 1'],
+                        body='H.scen_c02([5, 5, 0], -1, True, 2, 1, 0, p1, q1, 0, 0, 1, 1, (0, 0, 1))', tier=q, timeout=900, family='c02', weight=4))
         if tier != 'thorough':
             out = [c for c in out if c.tier == 'quick']
         out.append(Cell(name='twin_c02', sig='styles: List[int], p1: int', pre=['len(styles) == 2 and all(0 <= s <= 1 for s in styles) and 0 <= p1 <= 40'],
